@@ -142,7 +142,7 @@ class Sh:
         self.res["nontrivial"].add(case_hash([trusted, grant, load, site, mod, route, text]))
         bump(self.res, "histories_allowed" if allowed else "histories_refused")
         if ncreate: bump(self.res, "create_events_observed", ncreate)
-        if len(self.res["samples"]) < 4 and site in ("function-body", "top"):
+        if len(self.res["samples"]) < 2 or (len(self.res["samples"]) < 4 and allowed and ncreate):
             self.res["samples"].append({"history": desc, "compile": pm[:40], "create_events": ncreate, "objects_in_dump": objects})
 
     def imports(self):
